@@ -661,6 +661,27 @@ func readsUnguarded(info *types.Info, n ast.Node, v, okv types.Object) bool {
 	if _, bare := n.(*ast.Ident); bare {
 		return false // go/cfg lists the targets of a select-case / range assignment as bare identifiers
 	}
+	// `return v, false, …`: the zero value is handed back together with the answer "not found" – the caller decides
+	if ret, isRet := n.(*ast.ReturnStmt); isRet && len(ret.Results) >= 2 {
+		onlyBare := true
+		inspectNoLit(ret, func(y ast.Node) bool {
+			if id, isID := y.(*ast.Ident); isID && info.Uses[id] == v {
+				bare := false
+				for _, r := range ret.Results {
+					if ast.Unparen(r) == ast.Expr(id) {
+						bare = true
+					}
+				}
+				if !bare {
+					onlyBare = false
+				}
+			}
+			return true
+		})
+		if onlyBare {
+			return false
+		}
+	}
 	found := false
 	var walk func(x ast.Node)
 	walk = func(x ast.Node) {
